@@ -824,7 +824,9 @@ def run(c):
         "IPOPT returns the minimiser of the initialisation problem (simulation start values compared with 1e-6 x nominal^2)",
         "parameter-dependent values compared with 1e-9 relative tolerance",
     ]
-    c.prove()
+    from .translate_c14 import gen_modelica_attrs
+
+    c.prove(extra=gen_modelica_attrs(c))  # + ModelicaMixin attribute handling translated from the source
     n = c.n(12, 110)
     lines, pending = [], []
     with Scratch() as folder:
@@ -860,7 +862,9 @@ def run(c):
 
 
 def replay(c, rp):
-    c.prove()
+    from .translate_c14 import gen_modelica_attrs
+
+    c.prove(extra=gen_modelica_attrs(c))  # + ModelicaMixin attribute handling translated from the source
     for f in rp.get("failures", []) + rp.get("correspondence_disagreements", []):
         if f:
             print("replaying:", f["what"])
